@@ -1,8 +1,227 @@
-//! Implementation runner for the `aot` area: add the modes of this area to `dispatch`.
+//! Implementation runner for the `aot` area (C16): ahead-of-time completion generators.
+//!
+//! `(aot SHELL BIN (cmd NAME item...))` builds the real `clap::Command` from the spec, calls
+//! `clap_complete::aot::generate(shell, &mut cmd, bin, &mut buf)` on fresh copies (twice) and on the
+//! already built command (once more) and prints
+//! `(det true|false) (script x<hex>) (built <dump of the BUILT command through public API>)`.
+//! A panic anywhere is caught by `main.rs` and printed as `PANIC <msg>`.
+use crate::hex;
 use crate::sexp::Sx;
+use clap::builder::PossibleValuesParser;
+use clap::{Arg, ArgAction, Command, ValueHint};
+use clap_complete::aot::{generate, Shell};
+
+fn s(x: &Sx) -> String {
+    x.string()
+}
+
+fn ch(x: &Sx) -> char {
+    x.string().chars().next().expect("non-empty char")
+}
+
+fn hint_of(name: &str) -> ValueHint {
+    match name {
+        "Unknown" => ValueHint::Unknown,
+        "Other" => ValueHint::Other,
+        "AnyPath" => ValueHint::AnyPath,
+        "FilePath" => ValueHint::FilePath,
+        "DirPath" => ValueHint::DirPath,
+        "ExecutablePath" => ValueHint::ExecutablePath,
+        "CommandName" => ValueHint::CommandName,
+        "CommandString" => ValueHint::CommandString,
+        "CommandWithArguments" => ValueHint::CommandWithArguments,
+        "Username" => ValueHint::Username,
+        "Hostname" => ValueHint::Hostname,
+        "Url" => ValueHint::Url,
+        "EmailAddress" => ValueHint::EmailAddress,
+        h => panic!("spec: unknown hint {h}"),
+    }
+}
+
+fn build_arg(items: &[Sx]) -> Arg {
+    let mut a = Arg::new(s(&items[0]));
+    let mut pvs: Vec<clap::builder::PossibleValue> = vec![];
+    let mut has_pvs = false;
+    let mut action = ArgAction::Set;
+    for it in &items[1..] {
+        let l = it.args();
+        a = match it.head() {
+            "s" => a.short(ch(&l[0])),
+            "l" => a.long(s(&l[0])),
+            "vsa" => a.visible_short_alias(ch(&l[0])),
+            "hsa" => a.short_alias(ch(&l[0])),
+            "vla" => a.visible_alias(s(&l[0])),
+            "hla" => a.alias(s(&l[0])),
+            "act" => {
+                action = match l[0].sym() {
+                    "set" => ArgAction::Set,
+                    "append" => ArgAction::Append,
+                    "flag" => ArgAction::SetTrue,
+                    "flagfalse" => ArgAction::SetFalse,
+                    "count" => ArgAction::Count,
+                    x => panic!("spec: unknown action {x}"),
+                };
+                a
+            }
+            "num" => a.num_args((l[0].num() as usize)..=(l[1].num() as usize)),
+            "pv" => {
+                has_pvs = true;
+                pvs.push(clap::builder::PossibleValue::new(s(&l[0])));
+                a
+            }
+            "hpv" => {
+                has_pvs = true;
+                pvs.push(clap::builder::PossibleValue::new(s(&l[0])).hide(true));
+                a
+            }
+            "hint" => a.value_hint(hint_of(l[0].sym())),
+            "global" => a.global(true),
+            "hide" => a.hide(true),
+            "required" => a.required(true),
+            h => panic!("spec: unknown arg item {h}"),
+        };
+    }
+    a = a.action(action);
+    if has_pvs {
+        a = a.value_parser(PossibleValuesParser::new(pvs));
+    }
+    a
+}
+
+pub fn build_cmd(items: &[Sx]) -> Command {
+    let mut c = Command::new(s(&items[0]));
+    for it in &items[1..] {
+        let l = it.args();
+        c = match it.head() {
+            "va" => c.visible_alias(s(&l[0])),
+            "ha" => c.alias(s(&l[0])),
+            "hide" => c.hide(true),
+            "version" => c.version("1"),
+            "propagate-version" => c.propagate_version(true),
+            "no-help-flag" => c.disable_help_flag(true),
+            "no-version-flag" => c.disable_version_flag(true),
+            "no-help-sub" => c.disable_help_subcommand(true),
+            "arg" => c.arg(build_arg(l)),
+            "cmd" => c.subcommand(build_cmd(l)),
+            h => panic!("spec: unknown cmd item {h}"),
+        };
+    }
+    c
+}
+
+fn shell_gen(shell: &str, cmd: &mut Command, bin: &str) -> Vec<u8> {
+    let mut buf: Vec<u8> = vec![];
+    match shell {
+        "bash" => generate(Shell::Bash, cmd, bin, &mut buf),
+        "zsh" => generate(Shell::Zsh, cmd, bin, &mut buf),
+        "fish" => generate(Shell::Fish, cmd, bin, &mut buf),
+        "powershell" => generate(Shell::PowerShell, cmd, bin, &mut buf),
+        "elvish" => generate(Shell::Elvish, cmd, bin, &mut buf),
+        "nushell" => generate(clap_complete_nushell::Nushell, cmd, bin, &mut buf),
+        x => panic!("spec: unknown shell {x}"),
+    }
+    buf
+}
+
+fn vis_list<'a>(all: Vec<String>, visible: Vec<String>) -> String {
+    let v: Vec<String> = all
+        .iter()
+        .map(|a| format!("({} {})", if visible.contains(a) { "v" } else { "h" }, hex(a.as_bytes())))
+        .collect();
+    v.join(" ")
+}
+
+fn opt_hex(o: Option<String>) -> String {
+    match o {
+        Some(x) => hex(x.as_bytes()),
+        None => "none".into(),
+    }
+}
+
+fn dump_arg(a: &Arg) -> String {
+    let takes = a.get_num_args().map(|r| r.takes_values()).unwrap_or(false);
+    let sa = vis_list(
+        a.get_all_short_aliases().unwrap_or_default().iter().map(|c| c.to_string()).collect(),
+        a.get_visible_short_aliases().unwrap_or_default().iter().map(|c| c.to_string()).collect(),
+    );
+    let la = vis_list(
+        a.get_all_aliases().unwrap_or_default().iter().map(|c| c.to_string()).collect(),
+        a.get_visible_aliases().unwrap_or_default().iter().map(|c| c.to_string()).collect(),
+    );
+    let pvs = if !takes {
+        "none".to_string()
+    } else {
+        match a.get_value_parser().possible_values() {
+            None => "none".to_string(),
+            Some(it) => {
+                let v: Vec<String> = it
+                    .map(|pv| format!("({} {})", if pv.is_hide_set() { "h" } else { "v" }, hex(pv.get_name().as_bytes())))
+                    .collect();
+                format!("(some{}{})", if v.is_empty() { "" } else { " " }, v.join(" "))
+            }
+        }
+    };
+    format!(
+        "(arg {} (s {}) (l {}) (sa{}{}) (la{}{}) {} {} (pvs {}) (hint {:?}) {} {})",
+        hex(a.get_id().as_str().as_bytes()),
+        opt_hex(a.get_short().map(|c| c.to_string())),
+        opt_hex(a.get_long().map(|c| c.to_string())),
+        if sa.is_empty() { "" } else { " " },
+        sa,
+        if la.is_empty() { "" } else { " " },
+        la,
+        if takes { "tv" } else { "fl" },
+        if a.is_positional() { "pos" } else { "opt" },
+        pvs,
+        a.get_value_hint(),
+        if a.is_hide_set() { "hidden" } else { "shown" },
+        if a.is_global_set() { "global" } else { "local" },
+    )
+}
+
+fn dump_cmd(c: &Command) -> String {
+    let al = vis_list(
+        c.get_all_aliases().map(|x| x.to_string()).collect(),
+        c.get_visible_aliases().map(|x| x.to_string()).collect(),
+    );
+    let args: Vec<String> = c.get_arguments().map(dump_arg).collect();
+    let subs: Vec<String> = c.get_subcommands().map(dump_cmd).collect();
+    format!(
+        "(node {} {} {} (al{}{}) (args{}{}) (subs{}{}))",
+        hex(c.get_name().as_bytes()),
+        opt_hex(c.get_bin_name().map(|x| x.to_string())),
+        if c.is_hide_set() { "hidden" } else { "shown" },
+        if al.is_empty() { "" } else { " " },
+        al,
+        if args.is_empty() { "" } else { " " },
+        args.join(" "),
+        if subs.is_empty() { "" } else { " " },
+        subs.join(" "),
+    )
+}
+
+fn aot(args: &[Sx]) -> String {
+    let shell = args[0].sym();
+    let bin = s(&args[1]);
+    let spec = args[2].args();
+    let mut c1 = build_cmd(spec);
+    let s1 = shell_gen(shell, &mut c1, &bin);
+    let mut c2 = build_cmd(spec);
+    let s2 = shell_gen(shell, &mut c2, &bin);
+    // once more on the command that is already built
+    let s3 = shell_gen(shell, &mut c1, &bin);
+    let det = s1 == s2 && s1 == s3;
+    // the BUILT command, through public API only
+    let mut c3 = build_cmd(spec);
+    c3.set_bin_name(bin.clone());
+    c3.build();
+    format!("(det {det}) (script {}) (built {})", hex(&s1), dump_cmd(&c3))
+}
 
 /// Returns `Some(result)` when `head` is a mode of this area.
 pub fn dispatch(head: &str, args: &[Sx]) -> Option<String> {
-    let _ = (head, args);
-    None
+    match head {
+        "aot" => Some(aot(args)),
+        _ => None,
+    }
 }
